@@ -94,7 +94,7 @@ Proof.
     destruct (hosvd_factors Rops svd X ranks (S m) (S c)) as [fs'|] eqn:E; [|discriminate]. cbn [rbind] in H.
     injection H as <-. destruct Hc as [Hc1 Hc2]. cbn [factors_span]. split.
     + destruct (hosvd_factor_fits X Xm m r (svd c Xm) WX ltac:(lia) Hpos EX Hc1) as (cf & H1 & H2 & H3).
-      exists r, cf. auto.
+      exists r, cf. split; [exact H1|]. split; [apply orthonormal_semi; exact H2 | exact H3].
     + apply (IH (S m) (S c)); auto. lia.
 Qed.
 
